@@ -153,6 +153,14 @@ def rename(p, m):
 
 def respell(text, mode):
     """IRIs as prefixed names: mode 1 = PREFIX declarations, mode 2 = names resolved through initNs"""
+    if mode == 4:
+        # numbers and booleans as bare tokens: "1.5"^^xsd:decimal is 1.5, "-1"^^xsd:integer is -1, "true"^^xsd:boolean is true
+        X = "http://www.w3.org/2001/XMLSchema#"
+        t = re.sub(r'"([+-]?[0-9]+)"\^\^<' + X + 'integer>', r" \1 ", text)
+        t = re.sub(r'"([+-]?[0-9]*\.[0-9]+)"\^\^<' + X + 'decimal>', r" \1 ", t)
+        t = re.sub(r'"([+-]?(?:[0-9]+\.[0-9]*|\.[0-9]+|[0-9]+)[eE][+-]?[0-9]+)"\^\^<' + X + 'double>', r" \1 ", t)
+        t = re.sub(r'"(true|false)"\^\^<' + X + 'boolean>', r" \1 ", t)
+        return t, {}
     if mode == 0:
         return text, {}
     t = re.sub(r"<urn:([A-Za-z][A-Za-z0-9]*)>", r"u:\1", text)
@@ -256,7 +264,7 @@ def rewrite_cases(draw, tier):
     rw = {"permute": draw(st.booleans()), "keys": draw(st.lists(st.integers(0, 9), min_size=4, max_size=4)),
           "swap": draw(st.booleans()), "flags": draw(st.lists(st.booleans(), min_size=3, max_size=3)),
           "rename": draw(st.one_of(st.none(), st.permutations(gs.VARS), st.just(["v1", "x", "zz", "A", "_u"]))),
-          "spelling": draw(st.integers(0, 3)), "braces": draw(st.booleans()), "assoc": draw(st.booleans())}
+          "spelling": draw(st.integers(0, 4)), "braces": draw(st.booleans()), "assoc": draw(st.booleans())}
     return {"kind": kind, "data": data, "pattern": pat, "vars": vars_, "rewrite": rw, "flag": True if kind != "dataset" else draw(st.booleans())}
 
 
